@@ -359,6 +359,9 @@ def run(tier: str, seed: int) -> dict:
     clock = Clock(27 if quick else 400)
     family = make_family()
     grammars = all_grammars(family) + [("H-only-production", [HO, HOOnly], HO, True, "abstract HO with the single production Only(a, name:Dependent(a -> VarRange(['x'] if a else [])))")]
+    from rt.heap_helpers import unproductive_grammar as _ug
+
+    grammars = grammars + [_ug()]  # an abstract symbol without productions: operations that draw it fail (and must still leave the grammar alone)
     found = _Found()
     stats = {"checks": 0, "ops": 0, "errors": {}, "programs": set(), "changed_calls": 0, "transient_writes": 0, "abstract_dist_to_t_changes": 0, "enumerated": 0, "consequences": {}}
     parts = {}
@@ -423,7 +426,7 @@ def run(tier: str, seed: int) -> dict:
     from geneticengine.random.sources import NativeRandomSource as _NRS
 
     n_d = 0
-    for (gname, classes, start, refined, gdesc) in grammars + [unproductive_grammar()]:
+    for (gname, classes, start, refined, gdesc) in grammars:
         for dk in DECIDERS:
             if clock.over():
                 break
